@@ -1,14 +1,14 @@
 (* C01 - the structural induction over widget trees that assembles the per-constructor lemmas. *)
 From Coq Require Import ZArith List Bool Lia ZifyBool.
 Import ListNotations.
-From Urwid Require Import WidgetDims WidgetDimsProofs WidgetDimsFrame WidgetDimsOverlay.
+From Urwid Require Import WidgetDims WidgetDimsProofs WidgetDimsFrame WidgetDimsOverlay WidgetDimsColsArith WidgetDimsCols.
 Open Scope Z_scope.
 
 (* ------------------------------------------------------------------ trees: structural induction *)
 (* every leaf of the tree satisfies the contract on its own (the hypothesis discharged by testing) *)
 Fixpoint leaves_ok (w : widget) : Prop :=
   match w with
-  | WLeaf d => Good (leaf_sem d)
+  | WLeaf d => Good (leaf_sem d) /\ fpack_ok (leaf_sem d)
   | WAttr w => leaves_ok w
   | WBoxAdapter w _ => leaves_ok w
   | WPadding w _ _ _ _ _ => leaves_ok w
@@ -25,6 +25,11 @@ with leaves_ok_c (l : citems) : Prop :=
 with leaves_ok_o (o : owidget) : Prop :=
   match o with ONone => True | OSome w => leaves_ok w end.
 
+(* a leaf, possibly under AttrMaps: the only 'pack' Columns children that may claim FIXED sizing
+   (the title Text of a LineBox is one) - nothing is proved yet about pack(()) of containers *)
+Fixpoint leafish (w : widget) : bool :=
+  match w with WLeaf _ => true | WAttr w => leafish w | _ => false end.
+
 (* the constructors and options covered by the proof so far *)
 Fixpoint proved_fragment (w : widget) : bool :=
   match w with
@@ -34,7 +39,8 @@ Fixpoint proved_fragment (w : widget) : bool :=
   | WPadding w _ wt _ _ _ => proved_fragment w && (match wt with WClip => false | _ => true end)
   | WFiller w _ _ _ _ _ => proved_fragment w
   | WPile items _ => proved_fragment_p items && (match items with PNil => false | _ => true end)
-  | WColumns _ _ _ _ => false
+  | WColumns items d mw fp =>
+      proved_fragment_c items (cols_sizing (denote_c items)) && (fp <? zlength (denote_c items))
   | WFrame body hd ft _ => proved_fragment body && proved_fragment_o hd && proved_fragment_o ft
   | WOverlay t b p =>
       proved_fragment t && proved_fragment b
@@ -46,6 +52,16 @@ Fixpoint proved_fragment (w : widget) : bool :=
   end
 with proved_fragment_p (l : pitems) : bool :=
   match l with PNil => true | PCons w _ _ r => proved_fragment w && proved_fragment_p r end
+with proved_fragment_c (l : citems) (cs : sizing) : bool :=
+  match l with
+  | CNil => true
+  | CCons w k n b r =>
+      let ws := m_sizing (denote w) in
+      proved_fragment w
+      && (match k with KPack => s_flow ws && (negb (s_fixed ws) || leafish w) | _ => true end)
+      && (if b then s_box ws else negb (s_flow cs) || s_flow ws)     (* box columns hold box widgets, the others flow widgets *)
+      && proved_fragment_c r cs
+  end
 with proved_fragment_o (o : owidget) : bool :=
   match o with ONone => true | OSome w => proved_fragment w end.
 
@@ -57,6 +73,23 @@ Scheme widget_mut := Induction for widget Sort Prop
 Lemma denote_p_nonempty items : (match items with PNil => false | _ => true end) = true -> denote_p items <> [].
 Proof. destruct items; cbn; [discriminate|]. intros _ H. discriminate. Qed.
 
+Lemma leafish_fpack : forall w, leafish w = true -> leaves_ok w -> fpack_ok (denote w).
+Proof.
+  fix IH 1. intros w. destruct w; cbn [leafish leaves_ok denote]; intros H L; try discriminate.
+  - exact (proj2 L).
+  - specialize (IH w H L). unfold fpack_ok in *. cbn [attr_sem m_sizing m_pack]. exact IH.
+Qed.
+
+(* a plain condition on what a leaf reports that implies both leaf hypotheses *)
+Definition leaf_fixed_ok (d : leafdata) : Prop :=
+  s_fixed (l_sizing d) = true ->
+  forall f, match l_fixed_pack d f with Ok (w, _) => 0 <= w | Err e => soft e end.
+
+Lemma leaf_hyps d : leaf_contract d -> leaf_fixed_ok d -> Good (leaf_sem d) /\ fpack_ok (leaf_sem d).
+Proof.
+  intros C F. split; [apply leaf_good; exact C|]. unfold fpack_ok. cbn [leaf_sem m_sizing m_pack]. exact F.
+Qed.
+
 Theorem contract_by_structural_induction :
   forall w, wf_b w = true -> proved_fragment w = true -> leaves_ok w -> Good (denote w).
 Proof.
@@ -64,9 +97,11 @@ Proof.
     (fun w => wf_b w = true -> proved_fragment w = true -> leaves_ok w -> Good (denote w))
     (fun l => forall ps, wf_p l ps = true -> proved_fragment_p l = true -> leaves_ok_p l ->
               Forall pgood (denote_p l) /\ Forall (pile_ok ps) (denote_p l))
-    (fun _ => True)
+    (fun l => forall cs, wf_c l cs = true -> proved_fragment_c l cs = true -> leaves_ok_c l ->
+              Forall cgood (denote_c l) /\ Forall (cols_item_ok cs) (denote_c l))
     (fun o => wf_o o = true -> proved_fragment_o o = true -> leaves_ok_o o -> opt_flow_good (denote_o o)));
     cbn [wf_b proved_fragment leaves_ok denote]; auto.
+  - (* leaf *) intros d _ _ [L _]. exact L.
   - (* attr *) intros w IH Hw Hf Hl. apply attr_good; auto.
   - (* boxadapter *) intros w IH h Hw Hf Hl. apply boxadapter_good; try lia. apply IH; auto; lia.
   - (* padding *) intros w IH a wt mw l r Hw Hf Hl.
@@ -78,7 +113,9 @@ Proof.
   - (* pile *) intros items IH fp Hw Hf Hl.
     destruct (IH (pile_sizing (denote_p items)) ltac:(lia) ltac:(lia) Hl) as [A B].
     apply pile_good; auto. apply denote_p_nonempty. lia.
-  - (* columns: outside the fragment *) intros; discriminate.
+  - (* columns *) intros items IH d mw fp Hw Hf Hl.
+    destruct (IH (cols_sizing (denote_c items)) ltac:(lia) ltac:(lia) Hl) as [A B].
+    apply cols_good; auto; lia.
   - (* frame *) intros body IHb hd IHh ft IHf fpart Hw Hf Hl. destruct Hl as [L1 [L2 L3]].
     apply frame_good; try lia.
     + apply IHb; auto; lia.
@@ -99,6 +136,21 @@ Proof.
     split; constructor; auto.
     + unfold pgood. cbn. apply IHw; auto; lia.
     + unfold pile_ok. cbn. lia.
+  - (* CNil *) intros cs _ _ _. split; constructor.
+  - (* CCons *) intros w IHw k n b r IHr cs Hw Hf Hl.
+    cbn [wf_c proved_fragment_c leaves_ok_c denote_c] in *. destruct Hl as [Hl1 Hl2].
+    destruct (IHr cs ltac:(lia) ltac:(lia) Hl2) as [A B].
+    assert (G : Good (denote w)) by (apply IHw; auto; lia).
+    split; constructor; auto.
+    + unfold cgood. cbn [ci_sem ci_kind]. split; [exact G|]. intros ->.
+      destruct (s_fixed (m_sizing (denote w))) eqn:EF.
+      * apply leafish_fpack; auto. lia.
+      * unfold fpack_ok. rewrite EF. discriminate.
+    + unfold cols_item_ok, cols_child_ok in *. cbn [ci_sem ci_kind ci_amount ci_box].
+      unfold impb in Hw. repeat split.
+      * destruct k; lia.
+      * destruct b; [lia|]. intros Hcs. rewrite Hcs in Hf. cbn in Hf. lia.
+      * intros Hcs. rewrite Hcs in Hw. cbn in Hw. lia.
   - (* OSome *) intros w IH Hw Hf Hl. cbn [wf_o proved_fragment_o leaves_ok_o denote_o opt_flow_good] in *.
     split; [apply IH; auto; lia|lia].
 Qed.
